@@ -68,6 +68,10 @@ CLAIMED = {
                      'for every (size_u,size_v) in [2,12]^2 quick / [2,40]^2 thorough and every dividing spacing; vertex.data == S(vertex.uv) on symbolic surfaces; OBJ/OFF/STL (ascii, binary) '
                      'parsed back; trims: exploration-grade region match within one cell on concrete placements.',
                 note=_B_NOTE + ' The trim sub-claim is exploration-grade (concrete trims). struct.pack by contract in sym mode (A4).'),
+    'C17': dict(category='other', technique='contracts relating the same query under two configurations; per-shape exhaustive symbolic execution (symx); subprocess runs for the environment variable and the real pools',
+                text='Same answers for linear/binary span search and both evaluator families (derivative entries k+l <= order), for normalize_kv on/off under the affine parameter map '
+                     '(points, derivatives scaled by a^-k, insertion, sampling grids, tessellation), for GEOMDL_CACHE_SIZE in {unset,1,16,1024} and for num_procs in {1,2,4}.',
+                note=_B_NOTE + ' Schedules of worker processes are NOT explored: the claim rests on the order-preserving contract of multiprocessing.Pool.map (A4); real pools are run once natively as a sanity run.'),
 }
 
 _TODO = 'check not built yet in this revision (work in progress; see DESIGN.md section 7 for the planned contract)'
